@@ -17,6 +17,7 @@ type targetPanic struct {
 	v     value
 	rt    bool // Go run-time error (index out of range, nil deref, ...)
 	where string
+	stack string
 }
 
 func (p targetPanic) String() string { return toString(p.v) }
